@@ -11,16 +11,33 @@ LEVEL = "model_checking"
 FLAVOUR = "plain"
 TIMEOUT = 600
 RULE = ("Layer A: for every operator, every (vmin, vmax) in (D u {None})^2 with vmin <= vmax over D = {0..4} (ints, "
-        "floats, one-letter strings), every constant in D and every list of <= 3 elements of D in every order: if "
-        "the real function answers 'exclude' then no value set with that min and max contains a satisfying element "
+        "floats, one-letter strings), every constant in D and every list of <= 3 elements of D in every order: if the"
+        " real function answers 'exclude' then no value set with that min and max contains a satisfying element "
         "(states = (op, bounds, constant) triples, transitions = calls of the real function). Layer B: cell = "
-        "(filter-column kind x statistics mode) or a partition layout; inside: every dataset of 2 (quick) / 3 "
-        "(thorough) row groups over 8 row-group contents x every filter program (single conditions over 7 ops x 5 "
-        "constants, in / not in lists, AND pairs, OR of AND groups, flat vs nested); observed through to_pandas, "
-        "iter_row_groups, count, filter_row_groups(as_idx); non-trivial = a filter evaluation on a dataset with "
-        ">= 1 qualifying row")
+        "(filter-column kind x statistics mode); kinds int64, str, float64, Int64 x modes all / none / rg0 "
+        "(statistics on the first row group only); foreign statistics layouts newstyle (only min_value / max_value "
+        "set, as other writers do) and halfopen (even row groups keep only max, odd ones only min) for int64; kinds "
+        "dt_tz (zone-aware column and constants), dt_int96 (times='int96'), cat_ord (ordered categorical whose "
+        "category order is the reverse of the label order) with mode all; thorough: dt and cat (unordered) under all "
+        "three basic modes, both foreign layouts for every basic kind, the converted kinds also under rg0, int64 with"
+        " statistics on some columns only (xonly: x; yonly: y). The int64 frames of the modes all / xonly / yonly are"
+        " wide: they also hold y = 4 - x (int64, y = 2 where x is NULL) and a never-filtered all-NULL column z. "
+        "Inside a cell: every dataset of 2 (quick) / 3 (thorough) row groups over 8 row-group contents x every filter"
+        " program (single conditions over 7 ops x 5 constants, in / not in lists, in / not in over a tuple / set / "
+        "frozenset / ndarray, AND pairs, OR of AND groups, flat vs nested; int columns against 2.5 and numpy scalars "
+        "for every operator family, float columns against ints; wide frames: conditions on y alone and x-with-y AND /"
+        " OR programs in both orders). Layer P: partition-key kind (int {1,2}, str {a,b}, int3 {2,10,-1}) x hive / "
+        "drill, str2 {aa,b}, bool and date keys (hive; thorough also drill), hive without pandas metadata (int3, "
+        "str2; thorough also int), two-level p x q layouts (hive, drill; thorough also hive without metadata): every "
+        "operator x every key value and values outside, in / not in over [v], [v0,v1], [v0,outside], (v0,), {v1}, [],"
+        " mixed with conditions on a data column and OR groups. Observed through to_pandas, iter_row_groups, count, "
+        "filter_row_groups (row-group list and as_idx); non-trivial = a filter evaluation on a dataset with >= 1 "
+        "qualifying row")
 ASSUMPTIONS = ["rows whose filter value is NULL/NaN are don't-care for != and not in, must-not-match otherwise",
-               "an exception is an acceptable answer only for a constant of a non-comparable type"]
+               "an exception is an acceptable answer only for a constant of a non-comparable type",
+               "categorical columns (ordered or not) are filtered by the order of their labels, the order the writer "
+               "uses for their bounds",
+               "a zone-aware constant denotes an instant: it is comparable with a zone-aware column whatever its zone"]
 
 OPS = ["==", "=", "!=", "<", "<=", ">", ">=", "in", "not in"]
 RG_CONTENTS = [(1,), (2,), (3,), (1, 2), (1, 3), (2, 3), (None,), (2, None)]
@@ -29,15 +46,33 @@ D = [0, 1, 2, 3, 4]
 
 def points(tier):
     pts = [{"layer": "A", "dom": dom} for dom in ("int", "float", "str")]
-    kinds = ["int64", "str", "float64", "dt", "Int64", "cat"] if tier == "thorough" else ["int64", "str", "float64", "Int64"]
-    for kind in kinds:
-        for stats in ("all", "none", "rg0"):
-            for first in range(len(RG_CONTENTS)):
-                pts.append({"layer": "B", "kind": kind, "stats": stats, "nrg": 3 if tier == "thorough" else 2,
-                            "first": first})
+    thorough = tier == "thorough"
+    kinds = ["int64", "str", "float64", "dt", "Int64", "cat"] if thorough else ["int64", "str", "float64", "Int64"]
+    cells = [(kind, stats) for kind in kinds for stats in ("all", "none", "rg0")]
+    # statistics as other writers lay them out
+    if thorough:
+        cells += [(kind, stats) for kind in kinds for stats in ("newstyle", "halfopen")]
+    else:
+        cells += [("int64", "newstyle"), ("int64", "halfopen")]
+    # statistics on some columns only (the wide int64 frame: bounds on x, none on y and z; and the reverse)
+    if thorough:
+        cells += [("int64", "xonly"), ("int64", "yonly")]
+    # kinds whose bounds go through a conversion (zone, int96, category labels)
+    for kind in ("dt_tz", "dt_int96", "cat_ord"):
+        cells += [(kind, stats) for stats in (("all", "rg0") if thorough else ("all",))]
+    for kind, stats in cells:
+        for first in range(len(RG_CONTENTS)):
+            pts.append({"layer": "B", "kind": kind, "stats": stats, "nrg": 3 if thorough else 2, "first": first})
     for pk in ("int", "str"):
         for scheme in ("hive", "drill"):
             pts.append({"layer": "P", "pkind": pk, "scheme": scheme})
+    for pk in ("int3", "str2", "bool", "date"):
+        for scheme in (("hive", "drill") if thorough or pk == "int3" else ("hive",)):
+            pts.append({"layer": "P", "pkind": pk, "scheme": scheme})
+    for pk in (("int", "int3", "str2") if thorough else ("int3", "str2")):
+        pts.append({"layer": "P", "pkind": pk, "scheme": "hive", "meta": "none"})
+    for scheme, meta in (("hive", "pandas"), ("drill", "pandas"), ("hive", "none"))[:3 if thorough else 2]:
+        pts.append({"layer": "P", "pkind": "int", "scheme": scheme, "levels": 2, "meta": meta})
     return pts
 
 
@@ -141,25 +176,41 @@ def _case(op, c, vmin, vmax):
 
 KINDMAP = {
     "int64": lambda v: v, "Int64": lambda v: v, "float64": lambda v: float(v),
-    "str": lambda v: "abcde"[v], "cat": lambda v: "abcde"[v],
+    "str": lambda v: "abcde"[v], "cat": lambda v: "abcde"[v], "cat_ord": lambda v: "abcde"[v],
 }
+INT_KINDS = ("int64", "Int64")
+DT_KINDS = ("dt", "dt_tz", "dt_int96")
+TZ = "Europe/Paris"
+
+
+def is_wide(kind, stats_mode):
+    """cells whose frames also hold the columns y and z"""
+    return kind == "int64" and stats_mode in ("all", "xonly", "yonly")
 
 
 def kval(kind, v):
     import pandas as pd
-    if kind == "dt":
+    if kind in ("dt", "dt_int96"):
         return pd.Timestamp("2020-01-0%d" % (v + 1))
+    if kind == "dt_tz":
+        return pd.Timestamp("2020-01-0%d" % (v + 1), tz=TZ)
     return KINDMAP[kind](v)
 
 
-def make_frame(kind, contents):
+def yval(v):
+    """the mirror column: y = 4 - x, 2 where x is NULL (never NULL itself)"""
+    return 2 if v is None else 4 - v
+
+
+def make_frame(kind, contents, wide=False):
     import pandas as pd
     import numpy as np
-    vals, rid, offs = [], [], []
+    vals, rid, offs, ys = [], [], [], []
     for gi, cont in enumerate(contents):
         offs.append(len(vals))
         for j, v in enumerate(cont):
             vals.append(None if v is None else kval(kind, v))
+            ys.append(yval(v))
             rid.append(gi * 10 + j)
     if kind == "int64":
         raise_null = any(v is None for v in vals)
@@ -172,14 +223,23 @@ def make_frame(kind, contents):
         s = pd.Series([np.nan if v is None else v for v in vals], dtype="float64")
     elif kind == "str":
         s = pd.Series(vals, dtype=object)
-    elif kind == "dt":
+    elif kind in ("dt", "dt_int96"):
         s = pd.Series(pd.to_datetime(vals))
+    elif kind == "dt_tz":
+        s = pd.Series(pd.DatetimeIndex(pd.to_datetime([None if v is None else v.tz_convert("UTC") for v in vals],
+                                                      utc=True)).tz_convert(TZ))
     elif kind == "cat":
         s = pd.Series(pd.Categorical(vals, categories=["e", "d", "c", "b", "a"]))
-    return pd.DataFrame({"x": s, "rid": rid}), offs
+    elif kind == "cat_ord":
+        s = pd.Series(pd.Categorical(vals, categories=["e", "d", "c", "b", "a"], ordered=True))
+    if not wide:
+        return pd.DataFrame({"x": s, "rid": rid}), offs
+    # y mirrors x (conditions on two data columns), z is never filtered and holds no value at all
+    return pd.DataFrame({"x": s, "rid": rid, "y": pd.Series(ys, dtype="int64"),
+                         "z": pd.Series([np.nan] * len(rid), dtype="float64")}), offs
 
 
-def filter_programs(kind, quick):
+def filter_programs(kind, quick, wide=False):
     c = lambda v: kval(kind, v)
     progs = []
     for op in ("==", "=", "!=", "<", "<=", ">", ">="):
@@ -198,9 +258,52 @@ def filter_programs(kind, quick):
                    ([("x", "in", [c(0)])], [("x", "not in", [c(2), c(3)])])]:
         progs.append(("nested", [g1, g2]))
         progs.append(("nested", [g2, g1]))
-    if kind in ("int64", "Int64"):
+    if kind in INT_KINDS:
         progs.append(("flat", [("x", "<", 2.5)]))
         progs.append(("flat", [("x", ">=", 2.0)]))
+    progs.extend(extra_programs(kind, wide))
+    return progs
+
+
+def extra_programs(kind, wide=False):
+    """third-wave additions: list operands that are not lists, constants of another comparable type, a second
+    data column"""
+    import numpy as np
+    c = lambda v: kval(kind, v)
+    progs = []
+    progs.append(("flat", [("x", "in", (c(1), c(3)))]))
+    progs.append(("flat", [("x", "in", {c(2)})]))
+    progs.append(("flat", [("x", "in", frozenset([c(3), c(0)]))]))
+    progs.append(("flat", [("x", "not in", {c(0), c(4)})]))
+    if kind not in DT_KINDS:
+        progs.append(("flat", [("x", "in", np.array([c(1), c(3)]))]))
+    # constants of a different but comparable type, every operator family
+    if kind in INT_KINDS:
+        for op in ("==", "!=", "<=", ">"):
+            progs.append(("flat", [("x", op, 2.5)]))
+        progs.append(("flat", [("x", "in", [2.5, 3])]))
+        progs.append(("flat", [("x", "not in", [2.5])]))
+        progs.append(("flat", [("x", ">=", np.int64(2))]))
+        progs.append(("flat", [("x", "<", np.float64(2.5))]))
+    if kind == "float64":
+        for op, v in (("<", 2), (">=", 3), ("!=", 2), (">", np.int64(2))):
+            progs.append(("flat", [("x", op, v)]))
+        progs.append(("flat", [("x", "in", [1, 3])]))
+    if not wide:
+        return progs
+    # a second data column: alone, AND with x, OR with x, both orders
+    progs.append(("flat", [("y", ">", 2)]))
+    progs.append(("flat", [("y", "in", [1, 3])]))
+    progs.append(("flat", [("y", "==", 2)]))
+    for pair in ([("x", ">=", c(2)), ("y", ">=", 2)], [("y", "<", 2), ("x", "<=", c(3))],
+                 [("x", "==", c(1)), ("y", "==", 3)], [("x", "<", c(2)), ("y", "<", 3)]):
+        progs.append(("flat", pair))
+        progs.append(("flat", pair[::-1]))
+    for g1, g2 in [([("x", "<", c(2))], [("y", "<", 2)]),
+                   ([("y", "==", 3)], [("x", "==", c(3)), ("y", "==", 1)]),
+                   ([("x", "in", [c(1)]), ("y", ">", 3)], [("y", "in", [1, 2]), ("x", ">", c(1))])]:
+        progs.append(("nested", [g1, g2]))
+        progs.append(("nested", [g2, g1]))
     return progs
 
 
@@ -259,6 +362,21 @@ def observe(pf, filt, sigs_add, what, rows_by_rg, rid_rg):
             sigs_add("observations_disagree", "%s: count()=%d, to_pandas %d rows" % (what, cnt, len(got)), via="count")
     except Exception as e:
         sigs_add("filter_raised", "%s: iter/count raised %s: %s" % (what, type(e).__name__, str(e)[:100]), exc=type(e).__name__, via="iter")
+    # the selection itself, in both of its forms (two copies of the same decision in the library)
+    try:
+        idx = list(api.filter_row_groups(pf, filt, as_idx=True))
+        all_rgs = list(pf.row_groups)
+        pos = [all_rgs.index(rg) for rg in api.filter_row_groups(pf, filt)]
+        # every row group of these datasets holds >= 1 row, so the kept ones are exactly those seen in the result
+        if idx != sorted(kept):
+            sigs_add("observations_disagree", "%s: filter_row_groups(as_idx=True) gives %r, to_pandas holds the row "
+                     "groups %r" % (what, idx, sorted(kept)), via="as_idx")
+        if pos != sorted(kept):
+            sigs_add("observations_disagree", "%s: filter_row_groups() gives the row groups %r, to_pandas holds %r"
+                     % (what, pos, sorted(kept)), via="rg_list")
+    except Exception as e:
+        sigs_add("filter_raised", "%s: filter_row_groups raised %s: %s" % (what, type(e).__name__, str(e)[:100]),
+                 exc=type(e).__name__, via="as_idx")
     return got
 
 
@@ -283,25 +401,33 @@ def run_B(p):
             if not detail[0]:
                 detail[0] = msg
 
-    progs = filter_programs(kind, nrg == 2)
+    wide = is_wide(kind, stats_mode)
+    progs = filter_programs(kind, nrg == 2, wide)
     d = scratch()
     for contents in itertools.product(RG_CONTENTS, repeat=nrg):
         if contents[0] != RG_CONTENTS[p["first"]]:
             continue
-        df, offs = make_frame(kind, contents)
+        df, offs = make_frame(kind, contents, wide)
         if df is None:
             continue
         path = os.path.join(d, "t.parquet")
-        st = {"all": True, "none": False, "rg0": True}[stats_mode]
-        fastparquet.write(path, df, row_group_offsets=offs, stats=st, write_index=False)
+        st = {"none": False, "xonly": ["x"], "yonly": ["y"]}.get(stats_mode, True)
+        kw = {"times": "int96"} if kind == "dt_int96" else {}
+        fastparquet.write(path, df, row_group_offsets=offs, stats=st, write_index=False, **kw)
         if stats_mode == "rg0":
             _strip_stats(path, keep_rg=0)
+        elif stats_mode in ("newstyle", "halfopen"):
+            _foreign_stats(path, stats_mode)
         datasets += 1
         pf = fastparquet.ParquetFile(path)
         cells = O.series_to_list(df["x"])
-        if kind == "dt":
+        if kind in ("dt", "dt_int96"):
             import pandas as pd
             cells = [None if c is None else pd.Timestamp(c[1]) for c in cells]
+        elif kind == "dt_tz":
+            import pandas as pd
+            cells = [None if c is None else pd.Timestamp(c[1], tz="UTC") for c in cells]
+        ycells = [int(v) for v in df["y"]] if wide else [None] * len(cells)
         rids = list(df["rid"])
         rows_by_rg = {}
         rid_rg = {}
@@ -322,8 +448,8 @@ def run_B(p):
             if got is None:
                 continue
             must = []
-            for x, r in zip(cells, rids):
-                mm, dc = row_matches(groups, {"x": x})
+            for x, yv, r in zip(cells, ycells, rids):
+                mm, dc = row_matches(groups, {"x": x, "y": yv})
                 if mm:
                     must.append(r)
             if must:
@@ -331,23 +457,46 @@ def run_B(p):
             lost = [r for r in must if r not in got]
             if lost:
                 add("lost_rows", "%s: qualifying rows %r are missing from the result %r" % (what, lost, got),
-                    bound_case=_bound_case(contents, groups, kind))
+                    bound_case=_bound_case(contents, groups, kind, stats_mode, sorted({rid_rg[r] for r in lost})))
     ok = not sigs
     return {"ok": ok, "outcome": "sound" if ok else "unsound", "nontrivial": nontriv > 0,
             "counts": {"datasets": datasets, "filter_evals": evals, "with_qualifying_rows": nontriv},
             "sig": list(sigs.values()) or None, "detail": detail[0]}
 
 
-def _bound_case(contents, groups, kind):
+def _bound_case(contents, groups, kind, stats_mode="all", lost_rgs=None):
+    """const_equals_bound: a row group that lost rows has a bound, visible to the reader, among the constants of
+    the conditions on x.  Only the row groups that lost rows count, and only the bounds their statistics carry."""
     consts = []
     for g in groups:
-        for (_, op, v) in g:
-            consts.extend(v if isinstance(v, list) else [v])
-    for cont in contents:
-        vals = [kval(kind, v) for v in cont if v is not None]
-        if vals and (min(vals) in consts or max(vals) in consts):
-            return "const_equals_bound"
+        for (col, op, v) in g:
+            if col != "x":
+                continue
+            consts.extend(list(v) if isinstance(v, (list, tuple, set, frozenset)) or type(v).__name__ == "ndarray"
+                          else [v])
+    for gi, cont in enumerate(contents):
+        if lost_rgs is not None and gi not in lost_rgs:
+            continue
+        for b in _visible_bounds(kind, cont, stats_mode, gi):
+            if any(_same_const(b, k) for k in consts):
+                return "const_equals_bound"
     return "other"
+
+
+def _same_const(a, b):
+    try:
+        return bool(a == b)
+    except Exception:
+        return False
+
+
+def _visible_bounds(kind, cont, stats_mode, gi):
+    vals = [kval(kind, v) for v in cont if v is not None]
+    if not vals or stats_mode in ("none", "yonly") or (stats_mode == "rg0" and gi != 0):
+        return []
+    if stats_mode == "halfopen":
+        return [max(vals)] if gi % 2 == 0 else [min(vals)]
+    return [min(vals), max(vals)]
 
 
 def _strip_stats(path, keep_rg):
@@ -368,22 +517,100 @@ def _strip_stats(path, keep_rg):
         f.write(data[:start] + fb + struct.pack("<I", len(fb)) + b"PAR1")
 
 
+def _rewrite_footer(path, edit):
+    """apply edit(FileMetaData) to the footer of a data file or of a _metadata file"""
+    import struct
+    from fastparquet.cencoding import from_buffer
+    data = open(path, "rb").read()
+    flen = struct.unpack("<I", data[-8:-4])[0]
+    start = len(data) - 8 - flen
+    fmd = from_buffer(data[start:start + flen], "FileMetaData")
+    edit(fmd)
+    fb = bytes(fmd.to_bytes())
+    with open(path, "wb") as f:
+        f.write(data[:start] + fb + struct.pack("<I", len(fb)) + b"PAR1")
+
+
+def _foreign_stats(path, mode):
+    """newstyle: every chunk carries only min_value / max_value (what parquet-mr / arrow write today);
+    halfopen: even row groups keep only their max, odd row groups only their min (old field names)"""
+    def edit(fmd):
+        for gi, rg in enumerate(fmd.row_groups):
+            for col in rg.columns:
+                s = col.meta_data.statistics
+                if s is None:
+                    continue
+                if mode == "newstyle":
+                    s.min_value, s.max_value = s.min, s.max
+                    s.min = None
+                    s.max = None
+                elif gi % 2 == 0:
+                    s.min = None
+                else:
+                    s.max = None
+    _rewrite_footer(path, edit)
+
+
+def _strip_pandas_meta(path):
+    """a dataset as a writer without pandas metadata leaves it: no typing information for the partition keys"""
+    def edit(fmd):
+        keep = []
+        for kv in fmd.key_value_metadata or []:
+            k = kv.key
+            k = k.decode() if isinstance(k, bytes) else k
+            if k != "pandas":
+                keep.append(kv)
+        fmd.key_value_metadata = keep
+    _rewrite_footer(path, edit)
+
+
+def _ppool(pk):
+    """(partition key values, constants outside them)"""
+    import pandas as pd
+    return {"int": ([1, 2], [0, 3]), "str": (["a", "b"], ["0", "c"]),
+            "int3": ([2, 10, -1], [0, 5, 11]),            # several digits, a sign: text order != number order
+            "str2": (["aa", "b"], ["a", "ab", "c"]),      # longer than one character
+            "bool": ([True, False], []),
+            "date": ([pd.Timestamp("2020-01-01"), pd.Timestamp("2020-01-02")],
+                     [pd.Timestamp("2019-12-31"), pd.Timestamp("2020-01-03")])}[pk]
+
+
+def _pcell(v):
+    """value of a partition column as read back -> python value comparable with the constants"""
+    import numpy as np
+    import pandas as pd
+    if isinstance(v, (bool, np.bool_)):
+        return bool(v)
+    if isinstance(v, (np.integer,)):
+        return int(v)
+    if isinstance(v, (np.floating,)):
+        return float(v)
+    if isinstance(v, (np.datetime64, pd.Timestamp)):
+        return pd.Timestamp(v)
+    if isinstance(v, (str, np.str_)):
+        return str(v)
+    return v
+
+
 def run_P(p):
-    """partitioned datasets: conditions on the partition column alone and mixed with statistics conditions"""
+    """partitioned datasets: conditions on the partition column(s) alone and mixed with statistics conditions;
+    key kinds, list operands, one- and two-level layouts, with and without pandas metadata"""
     import os
     import pandas as pd
     import fastparquet
     from mc.scratch import scratch
     from mc import oracles as O
     pk, scheme = p["pkind"], p["scheme"]
-    pv = {"int": [1, 2], "str": ["a", "b"]}[pk]
+    levels, meta = p.get("levels", 1), p.get("meta", "pandas")
+    pv, pout = _ppool(pk)
+    qv, qout = ["aa", "b"], ["a", "c"]
     sigs = {}
     detail = [""]
     evals = nontriv = 0
     ctx = {}
 
     def add(symptom, msg, **extra):
-        s = {"layer": "P", "pkind": pk, "scheme": scheme, "symptom": symptom}
+        s = {"layer": "P", "pkind": pk, "scheme": scheme, "levels": levels, "meta": meta, "symptom": symptom}
         s.update(ctx)
         s.update(extra)
         k = repr(sorted(s.items(), key=str))
@@ -392,14 +619,26 @@ def run_P(p):
             if not detail[0]:
                 detail[0] = msg
 
-    df = pd.DataFrame({"p": [pv[0], pv[0], pv[1], pv[1], pv[0], pv[0], pv[1], pv[1]],
-                       "x": [1, 2, 3, 4, 5, 6, 7, 8], "rid": list(range(8))})
+    n = 8
+    data = {"p": [pv[(i // 2) % len(pv)] for i in range(n)]}
+    on = ["p"]
+    if levels == 2:
+        data["q"] = [qv[i % 2] for i in range(n)]
+        on = ["p", "q"]
+    data["x"] = list(range(1, n + 1))
+    data["rid"] = list(range(n))
+    df = pd.DataFrame(data)
     d = scratch()
     path = os.path.join(d, "ds")
-    fastparquet.write(path, df, file_scheme=scheme, partition_on=["p"], row_group_offsets=[0, 4], write_index=False,
+    fastparquet.write(path, df, file_scheme=scheme, partition_on=on, row_group_offsets=[0, 4], write_index=False,
                       stats=True)
+    if meta == "none":
+        _strip_pandas_meta(os.path.join(path, "_metadata"))
     pf = fastparquet.ParquetFile(path)
+    if meta == "none" and pf.partition_meta:
+        raise RuntimeError("the pandas metadata is still there")
     pcol = "p" if scheme == "hive" else "dir0"
+    qcol = "q" if scheme == "hive" else "dir1"
     full = pf.to_pandas()
     rid_rg = {}
     rows_by_rg = {}
@@ -408,36 +647,71 @@ def run_P(p):
         rows_by_rg[gi] = O.series_to_list(part["rid"])
         for r in rows_by_rg[gi]:
             rid_rg[r] = gi
-    pcells = {r: v for r, v in zip(O.series_to_list(full["rid"]), O.series_to_list(full[pcol]))}
-    xcells = {r: v for r, v in zip(O.series_to_list(full["rid"]), O.series_to_list(full["x"]))}
-    pconst = [pv[0], pv[1]] + ([0, 3] if pk == "int" else ["0", "c"])
-    if scheme == "drill":
-        pconst = [str(v) for v in pconst] if pk == "str" else pconst
+    frids = O.series_to_list(full["rid"])
+    rows = {}
+    for i, r in enumerate(frids):
+        row = {pcol: _pcell(full[pcol].astype(object).iloc[i]), "x": int(full["x"].iloc[i])}
+        if levels == 2:
+            row[qcol] = _pcell(full[qcol].astype(object).iloc[i])
+        rows[r] = row
+    scalar_ops = ("==", "=", "!=", "<", "<=", ">", ">=")
     progs = []
-    for v in pconst:
-        for op in ("==", "!=", "<", ">=", ">"):
-            progs.append([[(pcol, op, v)]])
-        progs.append([[(pcol, "in", [v])]])
-        progs.append([[(pcol, "not in", [v])]])
-    for v in pconst[:2]:
+
+    def key_programs(col, vals, outs):
+        for v in list(vals) + list(outs):
+            for op in scalar_ops:
+                progs.append([[(col, op, v)]])
+            progs.append([[(col, "in", [v])]])
+            progs.append([[(col, "not in", [v])]])
+        lists = [[vals[0], vals[1]], [vals[1], vals[0]], (vals[0],), {vals[1]}, frozenset(vals[:2]), []]
+        if outs:
+            lists += [[vals[0], outs[0]], [outs[-1], vals[1]], list(outs), (outs[0], vals[-1])]
+        if len(vals) > 2:
+            lists += [[vals[0], vals[2]], list(vals)]
+        for lst in lists:
+            progs.append([[(col, "in", lst)]])
+            progs.append([[(col, "not in", lst)]])
+
+    key_programs(pcol, pv, pout)
+    for v in pv[:2]:
         for xo, xv in (("<=", 2), (">=", 7), ("==", 5), ("<", 1)):
             progs.append([[(pcol, "==", v), ("x", xo, xv)]])
+            progs.append([[("x", xo, xv), (pcol, "<=", v)]])
             progs.append([[(pcol, "==", v), ("x", xo, xv)], [("x", ">=", 7)]])
             progs.append([[("x", ">=", 7)], [(pcol, "==", v), ("x", xo, xv)]])
             progs.append([[(pcol, "==", v)], [(pcol, "!=", v), ("x", xo, xv)]])
             progs.append([[(pcol, "in", [v]), ("x", xo, xv)], [(pcol, "not in", [v]), ("x", ">", 4)]])
+            progs.append([[(pcol, "in", list(pv)), ("x", xo, xv)], [(pcol, "in", (v,))]])
+    if levels == 2:
+        key_programs(qcol, qv, qout)
+        for a in pv[:2]:
+            for b in qv:
+                progs.append([[(pcol, "==", a), (qcol, "==", b)]])
+                progs.append([[(qcol, "==", b), (pcol, "==", a)]])
+                progs.append([[(qcol, "in", [b]), (pcol, ">=", a)]])
+                progs.append([[(pcol, "in", [a]), (qcol, "not in", [b])]])
+                progs.append([[(pcol, "==", a), (qcol, "==", b)], [(pcol, "!=", a), (qcol, "!=", b)]])
+                progs.append([[(qcol, "<", b)], [(pcol, "==", a), (qcol, ">=", b), ("x", ">", 4)]])
+                progs.append([[(pcol, "==", a), (qcol, "==", b), ("x", "<=", 4)]])
+                progs.append([[(qcol, "==", b), ("x", ">", 4)], [(pcol, "==", a), ("x", "<=", 4)]])
     for groups in progs:
         ctx.clear()
-        ctx.update({"shape": "or" if len(groups) > 1 else "and", "ops": ",".join(sorted({c[1] for g in groups for c in g}))})
-        what = "%s %s filter=%r" % (scheme, pk, groups)
+        ctx.update({"shape": "or" if len(groups) > 1 else "and", "ops": ",".join(sorted({c[1] for g in groups for c in g})),
+                    "cols": ",".join(sorted({("q" if c[0] == qcol else "p" if c[0] == pcol else c[0])
+                                             for g in groups for c in g}))})
+        operands = [c[2] for g in groups for c in g if c[1] in ("in", "not in")]
+        if operands:
+            ctx["operand"] = ",".join(sorted({type(o).__name__ + ("0" if len(o) == 0 else "1" if len(o) == 1 else "n")
+                                              for o in operands}))
+        what = "%s %s levels=%d meta=%s filter=%r" % (scheme, pk, levels, meta, groups)
         evals += 1
         for filt in ([groups, groups[0]] if len(groups) == 1 else [groups]):
             got = observe(pf, filt, add, what, rows_by_rg, rid_rg)
             if got is None:
                 continue
             must = []
-            for r in pcells:
-                mm, dc = row_matches(groups, {pcol: pcells[r], "x": xcells[r]})
+            for r in frids:
+                mm, dc = row_matches(groups, rows[r])
                 if mm:
                     must.append(r)
             if must:
@@ -455,8 +729,11 @@ LEVEL_TEXT = ("Layer A decides the interval logic exhaustively: the real filter_
               "on every (operator, bounds, constant or list) over a 5-element ordered domain, which by order-isomorphism "
               "covers all totally ordered constants with <= 3 list elements, and every 'exclude' answer is checked "
               "against every value set consistent with the bounds. Layer B runs every 2- or 3-row-group dataset over 8 "
-              "row-group contents x ~90 filter programs x statistics present / absent / partly x partition layouts on "
-              "the real reader, through four observation points.")
+              "row-group contents x 72-99 filter programs x statistics present / absent / partly / in the layout of "
+              "other writers / on some columns only, for plain and converted column kinds (text, zone-aware and int96 "
+              "times, ordered categories); layer P runs one- and two-level hive and drill datasets over six kinds of "
+              "partition key, with and without pandas metadata; all on the real reader, through five observation "
+              "points (to_pandas, iter_row_groups, count, the selected row-group list, the selected indices).")
 LEVEL_NOTE = ("Trusted: pure-Python predicate evaluation. Layer A's state space is (op, vmin, vmax, constant); there is "
               "no hidden state in the functions (verified by the end-to-end layer using fresh handles).")
 TECHNIQUE = "explicit exhaustive model of the interval logic on the real functions + bounded exhaustive datasets x filter programs"
